@@ -599,7 +599,7 @@ class MultiFileReader:
         for the input, and returns an empty string when the files are
         exhausted.
         """
-        if not amt:
+        if amt is None or amt < 0:
             return self._joiner.join(f.read() for f in self._fileobjs)
         parts = []
         while amt > 0 and self._index < len(self._fileobjs):
